@@ -29,3 +29,29 @@ void h_sleep_until(void)    { FUT *r; SCHED *s; cv_i64 tp; cv_i8 *id; sch_sleep_
 #ifdef CV_HAS_sch_sleep_for_U
 void h_sleep_for(void)      { FUT *r; SCHED *s; cv_i64 d; cv_i8 *id; sch_sleep_for(r, s, d, id); __CPROVER_assert(0, "SENTINEL reachable after sleep_for"); }
 #endif
+#ifdef CV_HAS_sch_dtor_U
+void h_dtor(void)           { SCHED *s; sch_dtor(s); __CPROVER_assert(0, "SENTINEL reachable after ~scheduler"); }
+#endif
+#ifdef CV_HAS_sch_interval_cb_U
+/* the stop-callback lambda of scheduler::interval() (a plain function in the IR): [&]{ ...; this->cancel(&tag); } with everything it calls
+ * translated (cancel(id), cancel(id,e), remove, pop_item ...).  It may fire at any time, on any thread that holds no lock, in any state of
+ * the scheduler that satisfies the invariant.  Obligations: those of the lock primitive (lib/model_mutex.c), of the vector model, and the
+ * assertions below.  No contract is enforced here; the loop of remove() runs under its loop contract. */
+void h_interval_stop_cb(void) {
+  SCHED *s = malloc(sizeof(*s)); __CPROVER_assume(s != 0);
+  cv_i8 tag; struct { SCHED *this_; cv_i8 *tag; } closure = { s, &tag };
+  struct vec_model v0; struct pr_model p0; vm = v0; pm = p0;
+  cv_exc_pending = 0; gh_lock_depth = 0; gh_lock_held = 0; gh_n_lock = 0; gh_n_unlock = 0; gh_sched_mx = (void *)&s->_mx; gh_sp_flushed = 0;
+  __CPROVER_assume(VEC_WF && VEC_HI_T);
+  gh_n0 = vec_n; gh_t_in0 = vec_tin;
+  if (vec_tin) { gh_t_tp = IT_TP(VEC_T); gh_t_own = IT_OWN(VEC_T); gh_t_id = IT_ID(VEC_T); }
+  gh_pr_n_exc = 0; gh_pr_n_dropped = 0; gh_pr_n_val = 0;
+  sch_interval_cb((void *)&closure);
+  __CPROVER_assert(cv_exc_pending == 0, "stop callback: no exception escapes");
+  __CPROVER_assert(gh_lock_depth == 0 && gh_n_lock == gh_n_unlock, "stop callback: every lock taken is released");
+  __CPROVER_assert(VEC_WF && VEC_HI_T, "stop callback: scheduler invariant kept");
+  __CPROVER_assert(!(TRK_LIVE0 && gh_t_id != &tag) || TRK_SAME, "stop callback: a pending sleep that does not carry the interval's tag is untouched");
+  __CPROVER_assert(gh_pr_n_exc <= 1 && gh_pr_n_dropped == 0 && gh_pr_n_val == 0, "stop callback: at most one sleep is cancelled, nothing is dropped or resolved with a value");
+  __CPROVER_assert(0, "SENTINEL reachable after the stop callback");
+}
+#endif
